@@ -87,6 +87,7 @@ typedef struct {
 	char silent[96];      /* first statement-silent factor */
 	int unknown_nc;       /* number of ignored unknown non-critical elements */
 	int unknown_nc_hashed;/* ... of them inside RC_HASHED content */
+	int empty_values;     /* known elements with an empty payload where the value type needs content */
 } rsch_info;
 
 /* validates `n` bytes offered as `root` */
